@@ -59,6 +59,9 @@ def run(c):
     for m, (base, singles) in singles_by_message(gen).items():      # small values of each one-octet mandatory element x each optional element
         for v in mand_value_inputs(m, base, singles, list(range(8)) + [0x0F, 0x80, 0xFF] if not thorough else range(0, 256, 3)):
             cases.append(dict(k="dec", entry="plain", inp=v))
+    for m, (base, singles) in singles_by_message(gen).items():      # one element 17 / 33 / 70 times, contents differing, then more
+        for v in many_occurrences(m, base, singles, per_msg=3 if not thorough else 8):
+            cases.append(dict(k="dec", entry="plain", inp=v))
     for m, (base, singles) in singles_by_message(gen).items():      # an optional part of exactly 64 KiB
         for v in exact_64k_inputs(m, base, singles):
             cases.append(dict(k="dec", entry="plain", inp=v))
